@@ -78,7 +78,7 @@ Definition nnew (target : option path) (w w' : world) : Prop :=
 Lemma has_stable : forall w w' x, stable w w' -> cache_has_file (w_new w') x = false -> cache_has_file (w_new w) x = false.
 Proof.
   intros w w' x S H. destruct (cache_has_file (w_new w) x) eqn:E; [|reflexivity].
-  unfold cache_has_file in *. rewrite (S x E) in H. exact H.
+  pose proof (S x E) as K. unfold cache_has_file in *. rewrite K in H. congruence.
 Qed.
 
 Lemma nnew_trans : forall t a b c, stable a b -> nnew t a b -> nnew t b c -> nnew t a c.
@@ -229,4 +229,189 @@ Qed.
 
 End WriteN.
 
+(* ================================================================== *)
+(* The last Write                                                      *)
+(* ================================================================== *)
+
+(* ghost: follows [run]; the bytes and the mtime of the last Write on the own target *)
+Fixpoint lastw (pr : prog) (target : option path) (subs : list op) (w : world)
+               (acc : option (string * N)) {struct pr} : option (string * N) :=
+  match pr with
+  | Ret _ => acc
+  | Raise _ => acc
+  | Ask stale q k =>
+      if stale then lastw (k (inr (XRuntime RFinished))) target subs w acc else
+      let '(w1, (r, o)) := m_query q w in
+      let r' := user_answer q r w1 in
+      lastw (k r') target (app_op subs o) (log_answer q r' w1) acc
+  | Write c k =>
+      match target with
+      | None => lastw k target subs w acc
+      | Some p =>
+          let clock := N.succ (w_clock w) in
+          match write_file (w_fs w) p c None clock (w_nextid w) with
+          | inl fs' => lastw k target subs (set_clock clock (N.succ (w_nextid w)) (set_fs fs' w)) (Some (c, clock))
+          | inr _ => acc
+          end
+      end
+  | BuildFile stale p c fname a kw fn k =>
+      if stale then lastw (k (inr (XRuntime RFinished))) target subs w acc else
+      let '(w1, (r, o)) :=
+        m_build_file p c fname a kw (fun p' sa skw w' => run (fn p' sa skw) (Some p') [] w') w in
+      lastw (k r) target (app_op subs o) w1 acc
+  | Subbuild stale fname a kw fn k =>
+      if stale then lastw (k (inr (XRuntime RFinished))) target subs w acc else
+      let '(w1, (r, o)) :=
+        m_subbuild fname a kw (fun sa skw w' => run (fn sa skw) None [] w') w in
+      lastw (k r) target (app_op subs o) w1 acc
+  end.
+
+(* [acc] describes the regular file at p, if there is one *)
+Definition node_is (p : path) (acc : option (string * N)) (w : world) : Prop :=
+  forall g, lookup (w_fs w) p = Some (NFile g) -> acc = Some (f_bytes g, f_mtime g).
+
+Section LastW.
+
+Variable fs0 : fsT.
+Variable old : cache.
+Variable cf : path.
+Variable P : path -> Prop.
+Variable X : list path.
+Hypothesis HypA : forall a t, Tgt old cf P t -> below a t = true -> ~ P a.
+Hypothesis HS : forall a t, Tgt old cf P t -> below a t = true -> notorig fs0 a.
+
+Notation FI := (FInv fs0 old cf P X).
+Notation EI := (EInv fs0 old cf P).
+Notation GP := (GPO fs0 old cf P X).
+
+Lemma node_is_nnew : forall t p acc w w', nnew t w w' -> t <> Some p ->
+  cache_has_file (w_new w) p = true -> node_is p acc w -> node_is p acc w'.
+Proof.
+  intros t p acc w w' N Ht Hh HN g Hg. destruct (N p g Hg) as [Y|[Y|Y]]; [exact (HN g Y) | contradiction | congruence].
+Qed.
+
+Theorem run_lastw : forall pr, AllTargets P pr ->
+  forall p subs w w' res acc,
+    FI w -> EI w -> tcond (Some p) w -> gcond (Some p) w -> node_is p acc w ->
+    run pr (Some p) subs w = (w', res) -> node_is p (lastw pr (Some p) subs w acc) w'.
+Proof.
+  intros pr Hat.
+  induction Hat as [v | e | s q k Hk IHk | c k Hk IHk | s p0 c f a kw fn k Hp Hfn IHfn Hk IHk
+                    | s f a kw fn k Hfn IHfn Hk IHk];
+    intros p subs w w' res acc Fw Ew Tw Gw HN H; cbn [run] in H; cbn [lastw].
+  - inversion H; subst. exact HN.
+  - inversion H; subst. exact HN.
+  - destruct s; [eapply IHk; eauto|].
+    destruct (m_query q w) as [w1 [r1 o]] eqn:E.
+    pose proof (m_query_svb q _ _ _ E) as (Fq & _).
+    destruct (m_query_G fs0 old cf P X (Some p) q _ _ _ E Fw Ew Tw Gw) as (F1 & L1 & Ew1 & S1).
+    assert (T1 : tcond (Some p) w1) by (intros x Hx; apply L1, Tw, Hx).
+    assert (G1 : gcond (Some p) w1) by (eapply gcond_stable; eauto).
+    set (r' := user_answer q r1 w1) in *.
+    destruct (GRel_log_answer fs0 old cf P X (Some p) q r' w1 F1 Ew1 T1 G1) as (F2 & L2 & Ew2 & S2).
+    eapply IHk; [exact F2 | exact Ew2 | | | | exact H].
+    + intros x Hx. apply L2, T1, Hx.
+    + eapply gcond_stable; eauto.
+    + assert (Ef : w_fs (log_answer q r' w1) = w_fs w) by (unfold log_answer; destruct r' as [?|[]]; exact Fq).
+      intros g Hg. rewrite Ef in Hg. exact (HN g Hg).
+  - destruct (write_file (w_fs w) p c None (N.succ (w_clock w)) (w_nextid w)) as [fs'|e] eqn:E.
+    2:{ inversion H; subst. exact HN. }
+    set (w1 := set_clock (N.succ (w_clock w)) (N.succ (w_nextid w)) (set_fs fs' w)) in *.
+    assert (Erun : run (Write c (Ret PNone)) (Some p) [] w = (w1, (inl PNone, []))).
+    { cbn [run]. rewrite E. reflexivity. }
+    destruct (run_G fs0 old cf P X HypA HS _ (AT_Write P c _ (AT_Ret P PNone)) (Some p) [] _ _ _ Erun Fw Ew Tw Gw)
+      as (F1 & L1 & Ew1 & S1).
+    eapply IHk; [exact F1 | exact Ew1 | | | | exact H].
+    + intros x Hx. apply L1, Tw, Hx.
+    + eapply gcond_stable; eauto.
+    + intros g Hg. cbn [w_fs w1 set_clock set_fs] in Hg.
+      destruct (proj1 (write_file_frame _ _ _ _ _ _ _ E)) as (g0 & G1 & G2 & G3 & _).
+      assert (g = g0) by congruence. subst g0. rewrite G2, G3. reflexivity.
+  - destruct s; [eapply IHk; eauto|].
+    match type of H with (let '(_, _) := ?Z in _) = _ => destruct Z as [w1 [r1 o]] eqn:E end.
+    pose proof (fun sa skw => run_G fs0 old cf P X HypA HS _ (Hfn p0 sa skw) (Some p0) []) as HfnG.
+    destruct (m_build_file_G fs0 old cf P X HypA HS p0 c f a kw _ Hp HfnG (Some p) _ _ _ E Fw Ew Tw Gw) as (F1 & L1 & Ew1 & S1).
+    assert (N1 : nnew None w w1).
+    { apply (m_build_file_N fs0 old cf P X HypA HS (Some p) None p0 c f a kw
+               (fun p' sa skw w0 => run (fn p' sa skw) (Some p') [] w0) w w1 (r1, o) Hp HfnG);
+        [|exact Fw|exact Ew|exact Tw|exact Gw|exact E].
+      intros sa skw w2 w3 r0 F2 E2 T2 G2 R2.
+      exact (run_N fs0 old cf P X HypA HS _ (Hfn p0 sa skw) (Some p0) [] w2 w3 r0 F2 E2 T2 G2 R2). }
+    eapply IHk; [exact F1 | exact Ew1 | | | | exact H].
+    + intros x Hx. apply L1, Tw, Hx.
+    + eapply gcond_stable; eauto.
+    + apply (node_is_nnew None p acc w w1 N1); [discriminate | | exact HN].
+      apply CommitDirsInv.pending_has_file. exact (Gw p eq_refl).
+  - destruct s; [eapply IHk; eauto|].
+    match type of H with (let '(_, _) := ?Z in _) = _ => destruct Z as [w1 [r1 o]] eqn:E end.
+    assert (HfnG : forall sa skw, pres (GP (Some p)) (fun w0 => run (fn sa skw) None [] w0)).
+    { intros sa skw. apply pres_None_G. exact (run_G fs0 old cf P X HypA HS _ (Hfn sa skw) None []). }
+    destruct (m_subbuild_G fs0 old cf P X HypA HS f a kw _ (Some p) HfnG _ _ _ E Fw Ew Tw Gw) as (F1 & L1 & Ew1 & S1).
+    assert (N1 : nnew None w w1).
+    { apply (m_subbuild_N fs0 old cf P X HypA HS (Some p) None f a kw (fun sa skw w0 => run (fn sa skw) None [] w0) w w1 (r1, o));
+        [|exact Fw|exact Ew|exact Tw|exact Gw|exact E].
+      intros sa skw w2 w3 r0 F2 E2 _ _ R2.
+      eapply (run_N fs0 old cf P X HypA HS _ (Hfn sa skw) None [] w2 w3 r0 F2 E2); [| |exact R2];
+        intros x Hx; discriminate Hx. }
+    eapply IHk; [exact F1 | exact Ew1 | | | | exact H].
+    + intros x Hx. apply L1, Tw, Hx.
+    + eapply gcond_stable; eauto.
+    + apply (node_is_nnew None p acc w w1 N1); [discriminate | | exact HN].
+      apply CommitDirsInv.pending_has_file. exact (Gw p eq_refl).
+Qed.
+
+(* a build_file call that rebuilds its target and succeeds *)
+Theorem rebuilt_node_is_last_write : forall t p c f sa skw (fn : path -> pyval -> pyval -> prog) w w1 w' v o,
+  P p -> (forall p' a' k', AllTargets P (fn p' a' k')) ->
+  FI w -> EI w -> tcond t w -> gcond t w -> HInv w -> old_keys_ok (w_old w) ->
+  bf_setup p c f sa skw w = (w1, inl None) ->
+  bf_rebuild p c f sa skw (fun p' a k w0 => run (fn p' a k) (Some p') [] w0) w1 = (w', (inl v, Some o)) ->
+  exists g subs,
+    lookup (w_fs w') p = Some (NFile g) /\
+    lastw (fn p sa skw) (Some p) [] (bf_invoke_world p f sa skw w1) None = Some (f_bytes g, f_mtime g) /\
+    o = OBuildFile p c f sa skw subs v (cmp_of c g) false false.
+Proof.
+  intros t p c f sa skw fn w w1 w' v o HPp Hfn Fw Ew Tw Gw Hi Hk Hs H.
+  destruct (bf_setup_None _ _ _ _ _ _ _ Hs Hi) as (A & B & C & D).
+  pose proof (bf_setup_O _ _ _ _ _ _ _ _ Hs) as O1. unfold osame in O1.
+  destruct (bf_setup_G fs0 old cf P X HypA HS t p c f sa skw HPp _ _ _ Hs Fw Ew Tw Gw) as (F1 & _ & Ew1 & _).
+  pose proof (RollbackDirsLaws.bf_setup_none _ _ _ _ _ _ _ Hs) as Hb1.
+  unfold bf_rebuild in H. cbv beta in H.
+  destruct (run (fn p sa skw) (Some p) [] (bf_invoke_world p f sa skw w1)) as [w3 [res subs]] eqn:Er.
+  assert (Ti : tcond (Some p) (bf_invoke_world p f sa skw w1)) by (intros q Y; inversion Y; subst; exact Hb1).
+  assert (Gi : gcond (Some p) (bf_invoke_world p f sa skw w1)) by (intros q Y; inversion Y; subst; exact B).
+  destruct (GRel_set_log fs0 old cf P X (Some p) (LInvoke f (Some p) sa skw :: w_log w1) w1 F1 Ew1 Ti Gi)
+    as (Fi & _ & Ewi & _).
+  change (set_log (LInvoke f (Some p) sa skw :: w_log w1) w1) with (bf_invoke_world p f sa skw w1) in Fi, Ewi.
+  assert (HN0 : node_is p None (bf_invoke_world p f sa skw w1)).
+  { intros g Hg. cbn [w_fs bf_invoke_world set_log] in Hg. unfold isfile in C. rewrite Hg in C. discriminate C. }
+  pose proof (run_lastw _ (Hfn p sa skw) p [] _ _ _ None Fi Ewi Ti Gi HN0 Er) as HN3.
+  assert (H3 : HInv w3).
+  { refine (run_HInv _ (Some p) [] _ w3 _ _ _ _ Er); unfold bf_invoke_world.
+    - apply HInv_set_log. exact A.
+    - cbn [w_old set_log]. rewrite O1. exact Hk.
+    - intros t0 Et. inversion Et; subst t0. split; [exact B | exact D]. }
+  apply bf_finish_success in H. destruct H as (v0 & cmp & w4 & -> & Hsv & Hc & Hne & -> & ->).
+  pose proof (noneable_cmp_svb p c _ _ _ Hc) as (A1 & _).
+  pose proof (noneable_cmp_value _ _ _ _ _ Hc Hne) as Hv.
+  assert (Hval : exists g, lookup (w_fs w3) p = Some (NFile g) /\ cmp = cmp_of c g).
+  { destruct c; cbn [file_comparison_result] in Hv.
+    - destruct (file_metadata_spec _ _ _ _ Hv) as [_ S].
+      destruct (lookup (w_fs w3) p) as [[g|]|] eqn:El; try discriminate S.
+      inversion S; subst cmp. exists g. split; reflexivity.
+    - destruct (file_hash_spec p w3 w4 _ (proj1 H3) Hv) as (_ & _ & _ & S).
+      destruct (lookup (w_fs w3) p) as [[g|]|] eqn:El.
+      + inversion S; subst cmp. exists g. split; reflexivity.
+      + discriminate S.
+      + destruct S as [e0 S]. discriminate S. }
+  destruct Hval as (g & Hg & ->). exists g, subs. split; [|split].
+  - cbn [w_fs set_new]. rewrite A1. exact Hg.
+  - exact (HN3 g Hg).
+  - reflexivity.
+Qed.
+
+End LastW.
+
 Print Assumptions run_N.
+Print Assumptions run_lastw.
+Print Assumptions rebuilt_node_is_last_write.
